@@ -2,6 +2,7 @@ SPECIFICATION Spec
 CONSTANT Letters <- ACGT
 CONSTANT L = 3
 CONSTANT MaxAlt = 2
+CONSTANT Hints <- FullHint
 CONSTANT Refs <- TwoRefs3
 INVARIANT TypeOK
 INVARIANT RoundTrip
